@@ -1,6 +1,7 @@
 package grl
 
 import (
+	"regexp"
 	"errors"
 	"fmt"
 	"math"
@@ -709,6 +710,39 @@ func (m *Model) evalVfn(e *Expr) (interface{}, error) {
 				return nil, err
 			}
 			return strings.Compare(s, a[0]), nil
+		case "LastIndex":
+			a, err := strArg(1)
+			if err != nil {
+				return nil, err
+			}
+			return strings.LastIndex(s, a[0]), nil
+		case "Replace":
+			a, err := strArg(2)
+			if err != nil {
+				return nil, err
+			}
+			return strings.ReplaceAll(s, a[0], a[1]), nil
+		case "MatchString":
+			a, err := strArg(1)
+			if err != nil {
+				return nil, err
+			}
+			ok, rerr := regexp.MatchString(a[0], s)
+			if rerr != nil {
+				return nil, merr("invalid pattern")
+			}
+			return ok, nil
+		case "In": // equals one of the arguments
+			for _, x := range args {
+				xs, ok := x.(string)
+				if !ok {
+					return nil, merr("In needs string arguments")
+				}
+				if xs == s {
+					return true, nil
+				}
+			}
+			return false, nil
 		}
 		return nil, merr("unsupported string function %s", e.Fn)
 	case reflect.Slice, reflect.Array, reflect.Map:
@@ -1064,6 +1098,9 @@ func (m *Model) Apply(a *Action) (ActionEffect, error) {
 		return eff, nil
 	case "mut":
 		_, err := m.evalCall(a.E, true)
+		return eff, err
+	case "eval":
+		_, err := m.Eval(a.E)
 		return eff, err
 	}
 	return eff, fmt.Errorf("model: unknown action kind %q", a.K)
